@@ -74,6 +74,20 @@ func (c Cfg) parseVal(raw []byte) (uint64, error) {
 		return strconv.ParseUint(string(b), 10, 64)
 	case "ptr":
 		return strconv.ParseUint(string(raw), 10, 64)
+	case "long":
+		var s string
+		if err := json.Unmarshal(raw, &s); err != nil {
+			return 0, err
+		}
+		i := strings.IndexByte(s, '-')
+		if i < 0 {
+			return 0, errors.New("bad long value")
+		}
+		n, err := strconv.ParseUint(s[:i], 10, 64)
+		if err != nil || s != longText(n) {
+			return 0, errors.New("bad long value")
+		}
+		return n, nil
 	case "iface":
 		var v struct{ X []string }
 		if err := json.Unmarshal(raw, &v); err != nil || len(v.X) != 1 {
